@@ -32,6 +32,7 @@ Section G.
   Notation params := (params tk cl txt).
   Notation call_tail := (call_tail tk cl txt).
   Notation prim := (prim tk cl txt num).
+  Notation typed_leaf := (typed_leaf tk cl txt num).
   Notation unary := (unary tk cl txt num).
   Notation loop := (loop tk cl lvl).
   Notation pexpr := (pexpr tk cl txt num lvl).
@@ -41,6 +42,9 @@ Section G.
     | SConst (t : tk) (k : ckind)
     | SSigned (sg d : tk) (neg : bool)
     | SBool (bt hs v : tk) (b : bool)                      (* BOOL#TRUE / BOOL#FALSE *)
+    | SSignedR (sg d : tk) (neg : bool)                    (* +1.5, and under a unary operator -1.5 *)
+    | STyped (k : tykw) (ty hs : tk) (sg : option (tk * bool)) (v : tk) (l : sleaf)
+                                                           (* INT#5 INT#-5 INT#16#FF REAL#1.5 REAL#-1.5 WORD#16#FF *)
     | SName (t : tk) (w : list tk)
     | SVar (t : tk) (ss : ssels)                           (* a variable with selectors: a.b, a[i, j].c *)
     | SCall0 (t : tk) (w1 : list tk) (lp : tk) (w2 : list tk) (rp : tk)
@@ -78,6 +82,8 @@ Section G.
     | SConst t _ => [t]
     | SSigned sg d _ => [sg; d]
     | SBool bt hs v _ => [bt; hs; v]
+    | SSignedR sg d _ => [sg; d]
+    | STyped _ ty hs sg v _ => ty :: hs :: match sg with Some (s, _) => [s; v] | None => [v] end
     | SName t w => t :: w
     | SVar t ss => t :: flatss ss
     | SCall0 t w1 lp w2 rp => t :: w1 ++ lp :: w2 ++ [rp]
@@ -114,6 +120,8 @@ Section G.
     | SConst t k => XAtom (leaf_of tk txt num k t)
     | SSigned _ d neg => XAtom (LfInt neg (num d))
     | SBool _ _ _ b => XAtom (LfBool b)
+    | SSignedR _ d neg => XAtom (LfReal None (Some neg) (txt d))
+    | STyped _ _ _ _ _ l => XAtom l
     | SName t _ => XAtom (LfName (txt t))
     | SVar t ss => XVar (txt t) (erasess ss)
     | SCall0 t _ _ _ _ => XCall (txt t) []
@@ -147,7 +155,7 @@ Section G.
 
   Fixpoint size (s : sp) : nat :=
     match s with
-    | SConst _ _ | SSigned _ _ _ | SBool _ _ _ _ | SName _ _ => 1
+    | SConst _ _ | SSigned _ _ _ | SBool _ _ _ _ | SName _ _ | SSignedR _ _ _ | STyped _ _ _ _ _ _ => 1
     | SVar _ ss => 1 + sizess ss
     | SCall0 _ _ _ _ _ => 2
     | SCallN _ _ _ _ p ps _ _ => 2 + sizep p + sizeps ps
@@ -203,6 +211,13 @@ Section G.
     | SConst t k => cl t = CConst k
     | SSigned sg d neg => neg = false /\ cl sg = COp BAdd /\ cl d = CConst CkInt
     | SBool bt hs v b => cl bt = CBoolT /\ cl hs = CHash /\ cl v = CConst (if b then CkTrue else CkFalse)
+    | SSignedR sg d neg => neg = false /\ cl sg = COp BAdd /\ is_real_c (cl d) = true
+    | STyped k ty hs sg v l =>
+        cl ty = CTyKw k /\ cl hs = CHash /\
+        match sg with
+        | Some (s, b) => cl s = (if b then CMinus else COp BAdd) /\ typed_leaf k (Some b) v = Some l
+        | None => typed_leaf k None v = Some l
+        end
     | SName t w => cl t = CId /\ all_triv w
     | SVar t ss => cl t = CId /\ wfss ss /\ has_sel ss = true
     | SCall0 t w1 lp w2 rp => cl t = CId /\ all_triv w1 /\ cl lp = CLP /\ all_triv w2 /\ cl rp = CRP
@@ -215,6 +230,7 @@ Section G.
         uop_of t = Some o /\ all_triv w /\
         match s with
         | SSigned sg d neg => cl sg = (if neg then CMinus else COp BAdd) /\ cl d = CConst CkInt
+        | SSignedR sg d neg => cl sg = (if neg then CMinus else COp BAdd) /\ is_real_c (cl d) = true
         | SUn _ _ _ _ | SBin _ _ _ _ _ _ => False
         | _ => wf 0 s
         end
@@ -255,6 +271,7 @@ Section G.
   Definition wfp (s : sp) : Prop :=
     match s with
     | SSigned sg d neg => cl sg = (if neg then CMinus else COp BAdd) /\ cl d = CConst CkInt
+    | SSignedR sg d neg => cl sg = (if neg then CMinus else COp BAdd) /\ is_real_c (cl d) = true
     | SUn _ _ _ _ | SBin _ _ _ _ _ _ => False
     | _ => wf 0 s
     end.
@@ -314,6 +331,8 @@ Section G.
     - exists t, r. split; [reflexivity|]. eapply solid_of_class; [exact H | discriminate].
     - exists sg, (d :: r). split; [reflexivity|]. destruct H as [H _]. eapply solid_of_class; [exact H|]. destruct neg; discriminate.
     - exists bt, (hs :: v :: r). split; [reflexivity|]. destruct H as [H _]. eapply solid_of_class; [exact H | discriminate].
+    - exists sg, (d :: r). split; [reflexivity|]. destruct H as [H _]. eapply solid_of_class; [exact H|]. destruct neg; discriminate.
+    - eexists ty, _. split; [cbn [flat app]; reflexivity|]. destruct H as [H _]. eapply solid_of_class; [exact H | discriminate].
     - exists t, (w ++ r). split; [reflexivity|]. destruct H as [H _]. eapply solid_of_class; [exact H | discriminate].
     - eexists t, _. split; [cbn [flat app]; reflexivity|]. destruct H as [H _]. eapply solid_of_class; [exact H | discriminate].
     - eexists t, _. split; [cbn; reflexivity|]. destruct H as [H _]. eapply solid_of_class; [exact H | discriminate].
@@ -323,8 +342,10 @@ Section G.
 
   Lemma flat_solid s : forall p r, wf p s -> exists t r', flat s ++ r = t :: r' /\ solid t.
   Proof.
-    induction s as [t k|sg d neg|bt hs v b|t w|t ss|t w1 lp w2 rp|t w1 lp w2 p0 ps w3 rp|tl w1 s IH w2 tr|t o w s IH|t o l IHl w1 w2 r IHr];
+    induction s as [t k|sg d neg|bt hs v b|sg d neg|k ty hs sg v l|t w|t ss|t w1 lp w2 rp|t w1 lp w2 p0 ps w3 rp|tl w1 s IH w2 tr|t o w s IH|t o l IHl w1 w2 r IHr];
       intros p rest H.
+    - apply flat_solid_wfp. exact H.
+    - apply flat_solid_wfp. cbn in H. destruct H as (-> & H1 & H2). cbn. tauto.
     - apply flat_solid_wfp. exact H.
     - apply flat_solid_wfp. cbn in H. destruct H as (-> & H1 & H2). cbn. tauto.
     - apply flat_solid_wfp. exact H.
@@ -357,9 +378,11 @@ Section G.
   Lemma head_ident_next s : forall p rest, wf p s -> plain_next rest ->
     match flat s ++ rest with t :: r' => cl t = CId -> plain_next r' | [] => True end.
   Proof.
-    induction s as [t k|sg d neg|bt hs v b|t w|t ss|t w1 lp w2 rp|t w1 lp w2 p0 ps w3 rp|tl w1 s IH w2 tr|t o w s IH|t o l IHl w1 w2 r IHr];
+    induction s as [t k|sg d neg|bt hs v b|sg d neg|k ty hs sg v l|t w|t ss|t w1 lp w2 rp|t w1 lp w2 p0 ps w3 rp|tl w1 s IH w2 tr|t o w s IH|t o l IHl w1 w2 r IHr];
       intros p rest H Hr; cbn [flat app].
     - cbn in H. intro E. rewrite H in E. discriminate.
+    - cbn in H. destruct H as (_ & H & _). intro E. rewrite H in E. discriminate.
+    - cbn in H. destruct H as (H & _). intro E. rewrite H in E. discriminate.
     - cbn in H. destruct H as (_ & H & _). intro E. rewrite H in E. discriminate.
     - cbn in H. destruct H as (H & _). intro E. rewrite H in E. discriminate.
     - cbn in H. destruct H as (_ & Hw). intros _. unfold plain_next. rewrite (skip_app_triv w rest Hw). exact Hr.
@@ -387,9 +410,11 @@ Section G.
     | [] => True
     end.
   Proof.
-    induction s as [t k|sg d neg|bt hs v b|t w|t ss|t w1 lp w2 rp|t w1 lp w2 p0 ps w3 rp|tl w1 s IH w2 tr|t o w s IH|t o l IHl w1 w2 r IHr];
+    induction s as [t k|sg d neg|bt hs v b|sg d neg|k ty hs sg v l|t w|t ss|t w1 lp w2 rp|t w1 lp w2 p0 ps w3 rp|tl w1 s IH w2 tr|t o w s IH|t o l IHl w1 w2 r IHr];
       intros p rest H Hr; cbn [flat app].
     - cbn in H. intro E. rewrite H in E. discriminate.
+    - cbn in H. destruct H as (_ & H & _). intro E. rewrite H in E. discriminate.
+    - cbn in H. destruct H as (H & _). intro E. rewrite H in E. discriminate.
     - cbn in H. destruct H as (_ & H & _). intro E. rewrite H in E. discriminate.
     - cbn in H. destruct H as (H & _). intro E. rewrite H in E. discriminate.
     - cbn in H. destruct H as (H & _). intro E. rewrite H in E. discriminate.
@@ -402,6 +427,8 @@ Section G.
       rewrite (flat_skip_wfp s rest Hp).
       destruct s; cbn in Hs; try contradiction.
       + cbn. intro E. rewrite Hs in E. discriminate.
+      + cbn. destruct Hs as (Hs & _). intro E. rewrite Hs in E. destruct neg; discriminate.
+      + cbn. destruct Hs as (Hs & _). intro E. rewrite Hs in E. discriminate.
       + cbn. destruct Hs as (Hs & _). intro E. rewrite Hs in E. destruct neg; discriminate.
       + cbn. destruct Hs as (Hs & _). intro E. rewrite Hs in E. discriminate.
       + exact (head_ident_next (SName t0 w0) 0 rest Hs Hr).
@@ -447,6 +474,9 @@ Section G.
     - destruct H as (-> & H1 & H2). split; [cbn; tauto|]. exists sg, (d :: rest). split; [reflexivity|].
       unfold solid, StParser.uop_of. rewrite H1. split; [discriminate | reflexivity].
     - split; [exact H|]. destruct H as (H & _). eexists bt, _. split; [cbn; reflexivity|]. unfold solid, StParser.uop_of. rewrite H. split; [discriminate | reflexivity].
+    - destruct H as (-> & H1 & H2). split; [cbn; tauto|]. exists sg, (d :: rest). split; [reflexivity|].
+      unfold solid, StParser.uop_of. rewrite H1. split; [discriminate | reflexivity].
+    - split; [exact H|]. destruct H as (H & _). eexists ty, _. split; [cbn [flat app]; reflexivity|]. unfold solid, StParser.uop_of. rewrite H. split; [discriminate | reflexivity].
     - split; [exact H|]. destruct H as (H & _). eexists t, _. split; [cbn; reflexivity|]. unfold solid, StParser.uop_of. rewrite H. split; [discriminate | reflexivity].
     - split; [exact H|]. destruct H as (H & _). eexists t, _. split; [cbn [flat app]; reflexivity|]. unfold solid, StParser.uop_of. rewrite H. split; [discriminate | reflexivity].
     - split; [exact H|]. destruct H as (H & _). eexists t, _. split; [cbn; reflexivity|]. unfold solid, StParser.uop_of. rewrite H. split; [discriminate | reflexivity].
@@ -534,6 +564,23 @@ Section G.
       intros bt hs v b. assert (HB : PB (SBool bt hs v b)).
       { intros (H1 & H2 & H3) rest _ _ F f _ _. cbn [flat app StParser.prim erase]. rewrite H1, H2, H3.
         destruct b; reflexivity. }
+      split; [apply A_of_B; [reflexivity | exact HB] | exact HB].
+    - (* signed real constant *)
+      intros sg d neg. assert (HB : PB (SSignedR sg d neg)).
+      { intros (H1 & H2) rest _ _ F f _ _. cbn [flat app StParser.prim erase]. rewrite H1.
+        unfold StParser.is_real_c in *. destruct (cl d) as [| |k| | | | | | | | | | | |o| | |kw| | |tk0|dk| |] eqn:Ed; try discriminate H2.
+        destruct k; try discriminate H2; destruct neg; reflexivity. }
+      split; [apply A_of_B; [reflexivity | exact HB] | exact HB].
+    - (* typed numeric constant *)
+      intros k ty hs sg v l. assert (HB : PB (STyped k ty hs sg v l)).
+      { intros (H1 & H2 & H3) rest _ _ F f _ _. cbn [flat erase]. destruct sg as [[s b]|].
+        - destruct H3 as (Hs & Hl). cbn [app StParser.prim]. rewrite H1, H2.
+          assert (Es : StParser.sign_of (cl s) = Some b) by (rewrite Hs; destruct b; reflexivity).
+          rewrite Es, Hl. reflexivity.
+        - cbn [app StParser.prim]. rewrite H1, H2.
+          assert (Es : StParser.sign_of (cl v) = None).
+          { unfold StParser.typed_leaf in H3. destruct (fam k); destruct (cl v) as [| |c| | | | | | | | | | | |o| | |kw| | |tk0|dk| |]; try discriminate H3; reflexivity. }
+          rewrite Es, H3. reflexivity. }
       split; [apply A_of_B; [reflexivity | exact HB] | exact HB].
     - (* identifier *)
       intros t w. assert (HB : PB (SName t w)).
@@ -826,7 +873,7 @@ Section G.
   Definition is_nil (X : list tk) : bool := match X with [] => true | _ :: _ => false end.
   Definition scoped (X : list tk) : Prop :=
     forall b r, in_scope_from b (X ++ r) = in_scope_from (b && is_nil X) r.
-  Definition ok_class (c : tcl) : bool := match c with CSel | COther | CHash | CBoolT => false | _ => true end.
+  Definition ok_class (c : tcl) : bool := match c with CSel | COther | CHash | CBoolT | CTyKw _ => false | _ => true end.
 
   Lemma scoped_nil : scoped [].
   Proof. intros b r. cbn. rewrite andb_true_r. reflexivity. Qed.
@@ -851,6 +898,12 @@ Section G.
   Lemma scoped_bool bt hs v k X : cl bt = CBoolT -> cl hs = CHash -> cl v = CConst k -> scoped X -> scoped (bt :: hs :: v :: X).
   Proof.
     intros H1 H2 H3 HX b r. cbn [app StParser.in_scope_from]. rewrite H1, H2, H3. cbn [andb]. rewrite HX, andb_false_r. cbn. destruct X; reflexivity.
+  Qed.
+
+  Lemma scoped_typed ty hs k X : cl ty = CTyKw k -> fam k <> TfOther -> cl hs = CHash -> scoped X -> scoped (ty :: hs :: X).
+  Proof.
+    intros H1 Hf H2 HX b r. cbn [app StParser.in_scope_from]. rewrite H1, H2.
+    destruct (fam k); try contradiction; cbn [andb]; rewrite HX, andb_false_r; cbn; destruct X; reflexivity.
   Qed.
 
   Lemma ok_of_class t c : cl t = c -> ok_class c = true -> ok_class (cl t) = true.
@@ -884,6 +937,25 @@ Section G.
       + sc.
       + destruct neg; sc.
     - intros bt hs v b. split; [intros q (H1 & H2 & H3) | intros (H1 & H2 & H3)]; cbn [flat]; eapply scoped_bool; eauto using scoped_nil.
+    - intros sg d neg.
+      assert (Hd : forall c, is_real_c c = true -> ok_class c = true) by (intros c Hc; destruct c; try discriminate Hc; reflexivity).
+      split; [intros q (-> & H1 & H2) | intros (H1 & H2)]; cbn [flat]; apply Hd in H2.
+      + apply scoped_cons; [rewrite H1; reflexivity | apply scoped_tok; exact H2].
+      + apply scoped_cons; [rewrite H1; destruct neg; reflexivity | apply scoped_tok; exact H2].
+    - intros k ty hs sg v l.
+      assert (G : wf 0 (STyped k ty hs sg v l) -> scoped (flat (STyped k ty hs sg v l))).
+      { intros (H1 & H2 & H3). cbn [flat].
+        assert (Hf : fam k <> TfOther /\ exists c, cl v = CConst c).
+        { assert (Hl : exists o, typed_leaf k o v = Some l) by (destruct sg as [[s b]|]; [destruct H3 as (_ & H3) |]; eexists; exact H3).
+          destruct Hl as (o & Hl). unfold StParser.typed_leaf in Hl.
+          destruct (fam k); [| | |discriminate Hl]; (split; [discriminate|]);
+            destruct (cl v) as [| |c| | | | | | | | | | | |o0| | |kw| | |tk0|dk| |]; try discriminate Hl; eexists; reflexivity. }
+        destruct Hf as (Hf & c & Hv).
+        destruct sg as [[s b]|].
+        - destruct H3 as (Hs & _). eapply scoped_typed; [exact H1 | exact Hf | exact H2|].
+          apply scoped_cons; [rewrite Hs; destruct b; reflexivity|]. apply scoped_tok. rewrite Hv. reflexivity.
+        - eapply scoped_typed; [exact H1 | exact Hf | exact H2|]. apply scoped_tok. rewrite Hv. reflexivity. }
+      split; [intros q H; apply G; exact H | exact G].
     - intros t w. split; [intros q (H1 & H2) | intros (H1 & H2)]; cbn [flat]; sc.
     - intros t ss IHss.
       assert (G : wf 0 (SVar t ss) -> scoped (flat (SVar t ss))).
